@@ -37,6 +37,22 @@ IsaStep(P, s) ==
   ELSE IF Backend = "a64" THEN A64Step(P, s)
   ELSE RVStep(P, s)
 
+\* ---- optional: register snapshots recorded from the real processor at every statement marker (selftest/hw_x86.py runs the
+\* assembled program with a call to a register-dumping routine at each @mark).  Validates the ISA machine itself: an integer
+\* the model holds in a register must be the value the processor holds, a heap pointer must be the same offset from the heap
+\* base; registers the model regards as destroyed, stack or code addresses are not compared.
+HwRegs == {"rax", "rcx", "rdx", "rbx", "rbp", "rsi", "rdi", "r8", "r9", "r10", "r11", "r12", "r13", "r14", "r15"}
+HwOf(c) == IF "hw" \in DOMAIN Cases[c] THEN Cases[c].hw ELSE <<>>
+HwRegOK(v, w, base) == IF v.t = "int" THEN v.w = w
+                       ELSE IF v.t = "ptr" THEN Sub(w, base) = FromNat(BlockBytes * v.b + v.o)
+                       ELSE TRUE
+HwAgrees(c, s) ==
+  LET hw == HwOf(c) k == s.marks + 1 IN
+  IF hw = <<>> THEN ""
+  ELSE IF k > Len(hw) THEN "the processor passed fewer statement markers than the model"
+  ELSE LET bad == {r \in HwRegs : ~HwRegOK(s.regs[r], hw[k][r], hw[1][Cfg.heap.r])}
+       IN IF bad = {} THEN "" ELSE "the processor's register " \o (CHOOSE r \in bad : TRUE) \o " differs from the model's"
+
 \* value held by a temporary (register or spill slot relative to the stack pointer)
 TempVal(s, t) ==
   IF t.k = "reg" THEN s.regs[t.r]
@@ -80,6 +96,7 @@ Sync(c, s) ==
   ELSE IF Len(i.ctx) # Len(m.env) \/ \E p \in 1..Len(m.env) : i.ctx[p].id # m.env[p].id \/ i.ctx[p].chi # m.env[p].chi
        THEN Fail(s, "control", "environment differs at " \o n.k)
   ELSE IF Len(m.env) > Len(Cfg.temps) THEN [s EXCEPT !.status = "capacity"]
+  ELSE IF HwAgrees(c, s) # "" THEN Fail(s, "hw", HwAgrees(c, s) \o " (marker " \o ToString(s.marks + 1) \o ", at " \o n.k \o ")")
   ELSE LET hv == HeapView(s.heap, s.regs[Cfg.heap.r], s.regs[Cfg.free.r], Roots(s), s.hi)
            peak == IF hv.reach > s.peak THEN hv.reach ELSE s.peak
        IN
